@@ -38,10 +38,11 @@ Width(x) == Len(Norm(x).b)            \* number of significant bits below the si
 
 NotTC(x) == TC(1 - x.s, [i \in 1..Len(x.b) |-> 1 - x.b[i]])
 
-\* x + y + c0 (c0 in {0, 1}): ripple carry over one position more than the longer
-\* operand, where both are already sign bits: no overflow is possible there
+\* x + y + c0 (c0 in {0, 1}): ripple carry over two positions more than the longer
+\* operand (an operand with n bits below its sign lies in [-2^n, 2^n - 1], a sum in
+\* [-2^(n+1), 2^(n+1) - 1]: n + 1 bits below the sign, which is the last position)
 AddC(x, y, c0) ==
-    LET n == BMax(Len(x.b), Len(y.b)) + 1
+    LET n == BMax(Len(x.b), Len(y.b)) + 2
         RECURSIVE Go(_, _, _)
         Go(i, c, acc) == IF i = n THEN acc
                          ELSE LET t == Bit(x, i) + Bit(y, i) + c IN Go(i + 1, t \div 2, Append(acc, t % 2))
